@@ -26,6 +26,9 @@ fn configure<B: Builder>(b: &mut B, opts: &[&str]) {
             "margin" => { b.margin(v.parse().unwrap()); }
             "bg" => { b.background_color(rgba(v)); }
             "fg" => { b.module_color(rgba(v)); }
+            // colour given as a string (<hex of the string>:<the rgba it denotes>): &str for the module colour, String for the background
+            "fgs" => { let st = String::from_utf8(unhex(v.split_once(':').unwrap().0)).unwrap(); b.module_color(st.as_str()); }
+            "bgs" => { let st = String::from_utf8(unhex(v.split_once(':').unwrap().0)).unwrap(); b.background_color(st); }
             "shape" => { b.shape(SHAPES[v.parse::<usize>().unwrap()]); }
             "shapec" => {
                 let (s, c) = v.split_once(':').unwrap();
@@ -95,6 +98,8 @@ pub fn run_case(a: &[&str]) -> String {
                     "margin" => margin = v.parse().unwrap(),
                     "fg" => fg = rgba(v),
                     "bg" => bg = rgba(v),
+                    "fgs" => fg = rgba(v.split_once(':').unwrap().1),
+                    "bgs" => bg = rgba(v.split_once(':').unwrap().1),
                     "fitw" => { b.fit_width(v.parse().unwrap()); }
                     "fith" => { b.fit_height(v.parse().unwrap()); }
                     "shape" => { any_shape = true; if v != "0" { square_only = false; } }
@@ -226,12 +231,21 @@ pub fn run_case(a: &[&str]) -> String {
                 "procfs" => format!("/proc/fqh_out.{}", a[1]),
                 "longname" => format!("{}/{}.{}", dir, "x".repeat(300), a[1]),
                 "nul" => format!("{}/a\0b.{}", dir, a[1]),
+                // degenerate paths: no file name at all, or no parent component
+                "empty" => String::new(),
+                "root" => "/".to_string(),
+                "dot" => ".".to_string(),
+                "dotdot" => "..".to_string(),
+                "trailslash" => format!("{}/out_ts_{}.{}/", dir, std::process::id(), a[1]),
+                "relmissing" => format!("no_such_dir_fqh/out.{}", a[1]),
+                // a bare file name (Path::parent() is ""), written in the work directory: must succeed
+                "bare" => { std::env::set_current_dir(dir).unwrap(); format!("out_bare_{}_{}.{}", a.get(4).unwrap_or(&"large"), std::process::id(), a[1]) }
                 _ => panic!("fault class"),
             };
             if a[2] == "overwrite" {
                 // an existing, much longer file at the target path
                 std::fs::write(&path, vec![0x55u8; 300_000]).unwrap();
-            } else if a[2] == "ok" {
+            } else if a[2] == "ok" || a[2] == "bare" {
                 let _ = std::fs::remove_file(&path);
             }
             let (res, expect): (Result<(), String>, Vec<u8>) = if a[1] == "svg" {
@@ -247,7 +261,7 @@ pub fn run_case(a: &[&str]) -> String {
             };
             match res {
                 Ok(()) => {
-                    let same = if a[2] == "ok" || a[2] == "overwrite" || a[2] == "direct" { std::fs::read(&path).map(|c| c == expect).unwrap_or(false) } else { false };
+                    let same = if a[2] == "ok" || a[2] == "overwrite" || a[2] == "direct" || a[2] == "bare" { std::fs::read(&path).map(|c| c == expect).unwrap_or(false) } else { false };
                     format!("RET_OK same={}", same as u8)
                 }
                 Err(_) => "RET_ERR".to_string(),
